@@ -281,7 +281,9 @@ func setEffect(r *Rec, old, got, v string, imported bool) string {
 	if imported {
 		eff += ":target-defined-in-imported-file"
 	} else {
-		eff += seedFeature(r)
+		if f := seedFeature(r); f != ":diagram-has-underscore-reference" {
+			eff += f
+		}
 	}
 	if len(r.Op.B) > 0 {
 		eff += ":" + targetOrigin(r)
